@@ -2,7 +2,8 @@
 From Coq Require Import List ZArith.
 From LJT Require Import model.Suspend model.SuspendMarker model.SuspendHuff model.SuspendEnc
   proofs.SuspendProofs proofs.SuspendWriteProofs proofs.SuspendMarkerProofs proofs.SuspendTheorems
-  proofs.SuspendHuffProofs proofs.SuspendScanTheorems proofs.SuspendEncProofs.
+  proofs.SuspendHuffProofs proofs.SuspendScanTheorems proofs.SuspendEncProofs
+  model.SuspendBuf proofs.SuspendBufProofs gen.GenSuspend.
 Import ListNotations.
 
 (* (1) generic: for a resumable unit parser every partition of the byte string gives the
@@ -74,6 +75,29 @@ Theorem C09_output_buffer_irrelevant :
              total d' = fst (stream_pure wstate block encode_block flush_bits reset_dc ri ms e).
 Proof. exact output_buffer_irrelevant. Qed.
 Print Assumptions C09_output_buffer_irrelevant.
+
+(* statement-order facts read from the current source by tools/gen_Suspend.py: the commits that the
+   model performs only at Done (input_scan_number++, saw_SOF, bytes_read bookkeeping, discarded_bytes
+   sync, entropy state of decoder and encoder) are placed after the last suspendable read / at MCU end *)
+Theorem C09_source_discipline : suspension_discipline = true.
+Proof. exact (eq_refl true). Qed.
+Print Assumptions C09_source_discipline.
+
+(* (5) buffered-image mode, partial: proved for the input/output interlock model of the lossless decoder
+   (one scan, one sample per row): the image shown by the final pass is the plain undifferenced image
+   whatever legal sequence of consume_input / start_output / read_scanlines / finish_output precedes it.
+   The DCT coefficient-array path is covered by the schedule oracle of the check only.
+   output_pass_resets_lossless is read from jdmaster.c prepare_for_output_pass by the translator. *)
+Theorem C09_bufimage_final_pass_partial :
+  forall diffs ops, final_image output_pass_resets_lossless diffs ops = undiff diffs None.
+Proof. exact bufimage_final_pass. Qed.
+Print Assumptions C09_bufimage_final_pass_partial.
+
+(* the behaviour of the tree before the fix found by this check (start_pass_lossless re-armed at every
+   output pass) violates the clause: kept as the model-level witness of the regression case in corpus/C09 *)
+Example C09_bufimage_reset_refuted_before_fix :
+  final_image true [10; 20; 30; 40]%Z [Consume; Consume; StartOut; ReadRow] <> undiff [10; 20; 30; 40]%Z None.
+Proof. exact bufimage_reset_refuted_before_fix. Qed.
 
 Example C09_ex_every_split :
   forallb (fun cs => match outcome_ri (run_markers cs ex_init) with Some (7, 2)%Z => true | _ => false end)
